@@ -32,6 +32,7 @@ ProjOK(sn) ==
        /\ p.s = sn[p.o]                         \* exactly the characters of the abstract string
        /\ p.len = Len(sn[p.o])                  \* len = strlen
        /\ p.cap >= p.len + 1                    \* NUL-terminated inside its own allocation
+  /\ E.nbbad = 0                                \* a String that is an element of a container: the other elements are untouched
   /\ HashesOK(E.objs, 1, H)                     \* hash is a function of the value
 
 Step(sn) == E.exc = "" /\ ProjOK(sn) /\ str' = sn /\ H' = Learn(E.objs, 1, H)
